@@ -39,7 +39,7 @@ Cfg(p, c, period, meta) ==
 W1 == [seq |-> 1, from |-> "u2", to |-> "u1", denom |-> "d1", amt |-> 1]
 W2 == [seq |-> 2, from |-> "u1", to |-> "u2", denom |-> "d1", amt |-> 2]
 W3 == [seq |-> 3, from |-> "u2", to |-> "u1", denom |-> "d2", amt |-> 1]
-WBig == [seq |-> 4, from |-> "u2", to |-> "u1", denom |-> "d1", amt |-> 3]     \* over the 64-bit cap (cap = 2)
+WBig == [seq |-> 4, from |-> "u2", to |-> "u1", denom |-> "d1", amt |-> 4]     \* over the 64-bit cap (cap = 3 units; 4 units = 2^64)
 L(b, w) == [b |-> b, seq |-> w.seq, from |-> w.from, to |-> w.to, denom |-> w.denom, amt |-> w.amt]
 
 Trees == [ T1 |-> << L(1, W1) >>,
@@ -99,7 +99,7 @@ OracleEvents(s) ==
   \cup Creates(s, {"u1"}, {Cfg("p1", "c1", p, MetaNone) : p \in periods})
   \cup Proposes({"p1", "x"}, {1, 2}, 0..3, 1..(IF Thorough THEN 3 ELSE 2), roots)
   \cup Deletes({"gov", "p1", "c1", "x"}, {1, 2}, 0..3)
-  \cup Deposits({"u1"}, {1}, {"u2"}, {"d1"}, {1}, {"p0"})
+  \cup (IF s.l1seq["1"] <= 2 THEN Deposits({"u1"}, {1}, {"u2"}, {"d1"}, {1}, {"p0"}) ELSE {})
   \cup {Claim("x", 1, o, W1, 0, "T1", 1, "h1", "none") : o \in 1..2}
   \cup (IF Thorough THEN UpdProposer({"gov"}, {1}, {"p2"}) ELSE {})
 
@@ -107,16 +107,18 @@ SeqBelow(s, b, n) == s.l1seq[K(b)] <= n
 LedgerEvents(s) ==
   Advance(s, 3, {3})
   \cup Creates(s, {"u1", "x"}, {Cfg("p1", "c1", 2, MetaNone)})
-  \cup UNION {Deposits({"u1"}, {b}, {"u2"}, {"d1"}, {0, 2}, {"p1"}) : b \in {b \in {1, 2, 3} : SeqBelow(s, b, 2)}}
+  \cup UNION {Deposits({"u1"}, {b}, {"u2"}, {"d1"}, IF b = 1 \/ Thorough THEN {0, 2} ELSE {2}, {"p1"}) : b \in {b \in {1, 2, 3} : SeqBelow(s, b, 2)}}
   \cup (IF SeqBelow(s, 1, 2) THEN Deposits({"u2"}, {1}, {"u1"}, {"d2"}, {1}, {"p0"}) ELSE {})
   \cup Deposits({"bad:notbech32"}, {1}, {"u2"}, {"d1"}, {1}, {"p0"})
   \cup Deposits({"u1"}, {0, 1}, {"bad:empty", "u2"}, {"d1", "bad:denom"}, {3}, {"p0"})
+  \cup Deposits({"u1"}, {1}, {"u2"}, {"d1"}, {4}, {"p0"})                      \* 4 units = 2^64: does not fit 64 bits
   \cup (IF Thorough THEN Deposits({"u1"}, {1, 2}, {"u2"}, {"d1"}, {3, 5}, {"p0"}) ELSE {})
-  \cup Proposes({"p1"}, {1}, {1}, {1}, {Root(0, "T2", "h1")})
+  \cup UNION {Proposes({"p1"}, {b}, {1}, {1}, {Root(0, "T2", "h1")}) : b \in {b \in {1, 2} : s.nextOut[K(b)] <= (IF Thorough THEN 2 ELSE 1)}}
+  \cup Deletes({"c1"}, {1, 2}, {1})
   \cup {Claim("x", b, 1, w, 0, "T2", pos, "h1", "none") : b \in {1, 2}, w \in {W1, W2}, pos \in {1, 2}}
-  \cup Sends({"u1"}, {"esc1", "esc2"}, {"d1"}, {1})
-  \cup (IF s.nextB <= s.maxB THEN UpdParams({"gov"}, {0, 1}) ELSE {})
-  \cup ExpImp
+  \cup (IF s.bal["u1"]["d1"] >= 7 THEN Sends({"u1"}, {"esc1", "esc2"}, {"d1"}, {1}) ELSE {})
+  \cup (IF s.nextB <= s.maxB /\ (Thorough \/ s.fee = 0) THEN UpdParams({"gov"}, {0, 1} \ {s.fee}) ELSE {})
+  \cup (IF Thorough \/ s.now = 3 THEN ExpImp ELSE {})
 
 WVariants == {W1, [W1 EXCEPT !.amt = 2], [W1 EXCEPT !.to = "u2"], [W1 EXCEPT !.from = "u1", !.to = "u2"], [W1 EXCEPT !.seq = 2], [W1 EXCEPT !.denom = "d2"]}
 BadPos == {c \in {Claim("x", b, o, w, 0, t, pos, "h1", "none") : b \in {1, 2}, o \in 1..3, w \in {W1, W2, W3}, t \in {"T1", "T2", "T3"}, pos \in 1..3} : c.pos > Len(c.tree.leaves)}
@@ -127,7 +129,7 @@ ClaimEvents(s) ==
       n     == s.nextOut["1"] IN
   Advance(s, 4, {4})
   \cup Creates(s, {"u1"}, {Cfg("p1", "c1", 2, MetaNone)})
-  \cup (IF SeqBelow(s, 1, 3) THEN Deposits({"u1"}, {1}, {"u2"}, {"d1", "d2"}, {2}, {"p0"}) ELSE {})
+  \cup (IF SeqBelow(s, 1, 2) THEN Deposits({"u1"}, {1}, {"u2"}, {"d1", "d2"}, {3}, {"p0"}) ELSE {})
   \cup (IF n <= 3 THEN Proposes({"p1"}, {1}, {n}, {n}, roots) ELSE {})
   \cup Deletes({"c1"}, {1}, 1..2)
   \cup ({Claim("x", b, o, w, 0, t, pos, "h1", "none") :
@@ -137,6 +139,7 @@ ClaimEvents(s) ==
                 o \in 1..2, w \in WVariants, v \in {0, 1}, t \in {"T1", "T2"}, pos \in 1..2, h \in {"h1", "h2"}, m \in muts} \ BadPos)
         ELSE \* one dimension at a time around the valid claim (W1, version 0, tree T2, position 1, block hash h1)
              {Claim("u1", 1, o, w, 0, "T2", 1, "h1", "none") : o \in 1..3, w \in WVariants}
+             \cup {[always |-> TRUE] @@ Claim("u1", 1, o, [W1 EXCEPT !.amt = 5], 0, "T2", 1, "h1", "none") : o \in 1..3}   \* W1's amount + 2^64
              \cup {Claim("u1", 1, o, W1, 1, "T2", 1, "h1", "none") : o \in 1..3}
              \cup {Claim("u1", 1, o, W1, 0, "T2", 2, "h1", "none") : o \in 1..3}
              \cup {Claim("u1", 1, o, W1, 0, "T3", 2, "h2", "none") : o \in 1..3}
@@ -179,7 +182,7 @@ Events(s) ==
 
 MaxB == CASE Fam = "oracle" -> (IF Thorough THEN 2 ELSE 1) [] Fam = "ledger" -> 2 [] Fam = "claims" -> 2 [] Fam = "auth" -> 1 [] Fam = "perm" -> 2
 
-S0 == InitState(BKeys, Accts, Denoms, {"u1", "u2"}, 4, "d1", Chans, 2, MaxB, Devs)
+S0 == InitState(BKeys, Accts, Denoms, {"u1", "u2"}, 8, "d1", Chans, 3, MaxB, Devs)
 
 ----------------------------------------------------------------------------
 Init == /\ st = S0
@@ -194,12 +197,12 @@ Spec == Init /\ [][Next]_vars
 
 View == st
 
-ASSUME PrintT("META " \o ToJson([bkeys |-> BKeys, accts |-> Accts, denoms |-> Denoms, funded |-> {"u1", "u2"}, amt0 |-> 4,
-                                   chans |-> Chans, devs |-> Devs, maxB |-> MaxB, feeDenom |-> "d1", trees |-> Trees, cap |-> 2]))
+ASSUME PrintT("META " \o ToJson([bkeys |-> BKeys, accts |-> Accts, denoms |-> Denoms, funded |-> {"u1", "u2"}, amt0 |-> 8,
+                                   chans |-> Chans, devs |-> Devs, maxB |-> MaxB, feeDenom |-> "d1", trees |-> Trees, cap |-> 3]))
 
 (* E2: print every generated transition (ACTION_CONSTRAINT; always TRUE).   *)
 Emit ==
-  \/ ~last'.ok /\ Cardinality(last'.failed) > FailCap
+  \/ ~last'.ok /\ Cardinality(last'.failed) > FailCap /\ ~Has(last'.e, "always")
   \/ PrintT("EDGE " \o ToJson([from |-> st, e |-> last'.e, ok |-> last'.ok, resp |-> last'.resp,
                                 failed |-> last'.failed, to |-> IF last'.ok THEN st' ELSE [same |-> TRUE]]))
 
